@@ -507,6 +507,10 @@ def reaction_oracle(sc):
         for f in st["out"]:
             if f["t"] == "GOAWAY" and f.get("code", 0) != 0:
                 goaway = (st["i"], f.get("code"))
+        o2 = st["op"].get("op")
+        if goaway is None and (o2 in ("eof", "read_fail", "drop_conn", "abrupt_shutdown")
+                               or (o2 == "write_mode" and st["op"].get("mode") in ("fail", "zero"))):
+            return None      # the script ended the connection before the GOAWAY could reach the wire (throttled writes): no verdict
         if consumed and goaway is None and st["op"].get("op") == "poll_accept" and isinstance(st["res"], dict) and "sid" in st["res"]:
             # accepted a stream from frames fed after the violation? only count streams whose HEADERS were fed after it
             fed_after = any(t["i"] > step and t["op"].get("op") == "peer" and isinstance(t["op"].get("what"), dict)
